@@ -977,21 +977,31 @@ def replay(ctx, corr, path):
         corr.disagreements.append({'kind': 'model vs chibicc -E', 'what': tp, 'input': text})
 
 MANIFEST = {
-    'level_text': 'Lean 4 theorems over a hand-written model of preprocess.c (hide sets, read_macro_args, subst, expand_macro, preprocess2): '
-                  'hide-set algebra is set algebra (C09_hideset_algebra); argument identification splits exactly at top-level commas between '
-                  'matching parentheses and rejects unbalanced input (C09_args); every macro name in the output of expansion is painted or is a '
-                  'function-like name without `(` (C09_blue); expansion terminates within an explicit fuel bound for object-like definition '
-                  'sets (C09_terminates_partial; general case stated as C09_terminates_Statement, open); __COUNTER__ counts 0,1,2,... '
-                  '(C09_counter); subst agrees with the phase-structured C11 6.10.3.1-3 specification outside the placemarker region '
-                  '(C09_subst_spec_partial; the full statement is refuted by the kernel-checked witness t(,,) = known finding C09-placemarker). '
-                  'The model is tied to the code on every run by differential execution against the real chibicc -E, and chibicc is compared '
-                  'with gcc -E -P and the Lean specification on the same generated inputs.',
-    'level_note': 'Trusted: Lean kernel (axioms audited each run), the hand model (tied by testing: spellings, line structure, spacing and '
-                  'diagnostic kind of chibicc -E; hide sets are not observable directly), tools/extract/pp.py, the python tokenizer, the '
-                  'specification Spec/PPSpec.lean (validated against gcc 12). Partial: C09_subst_spec only outside NoPlacemarkerChain and the '
-                  'stated side conditions; C09_terminates only for object-like definition sets; #include/#if are C10.',
-    'technique': 'Lean 4: structural induction over replacement lists and token lists, multiset-style termination measure on hide sets; '
+    'level_text': 'Lean 4 theorems over a hand-written model of preprocess.c as it is now (hide sets, read_macro_args, subst, expand_macro, '
+                  'preprocess2), for all inputs: hide-set union/intersection/contains are set algebra and add_hideset changes nothing else '
+                  '(C09_hideset_algebra); read_macro_arg_one returns (a, r) exactly when the text is a balanced, top-level-comma-free prefix '
+                  'followed by its terminator, and otherwise reports "premature end of input" (C09_args_one, C09_args_unbalanced); whatever '
+                  'read_macro_args accepts is the arguments joined by commas, the variable argument taking the rest (C09_args); expand_macro '
+                  'declines a token only if it is painted, names no macro, or is a function-like name not followed by `(` (C09_blue_step); every '
+                  'token of an expansion carries the macro name in its hide set (C09_blue_paint); in the output of preprocess2 every identifier '
+                  'naming a macro is painted or function-like (C09_blue); for object-like definition sets preprocess2 finishes within the explicit '
+                  'fuel bound `bound defs input` (C09_terminates_partial, multiset-style measure on hide sets); __COUNTER__ yields c, c+1, ... '
+                  '(C09_counter); and subst produces exactly the spellings of the phase-structured C11 6.10.3.1-3 specification (with '
+                  'placemarkers) whenever that specification defines them, outside the two known-finding regions and without GNU/C2x extensions '
+                  '(C09_subst_spec_partial).  The full substitution statement is refuted by kernel-checked witnesses (Findings/C09.lean: t(,,) '
+                  'and str(: @\\n)).  On every run the model is tied to the real chibicc -E (spellings, line structure, spacing, diagnostic '
+                  'kind) and chibicc is compared with gcc -E -P and the Lean specification on ~3,300 (quick) generated inputs.',
+    'level_note': 'Partial: C09_subst_spec only outside NoPlacemarkerChain / StringizeLiteralSafe (known findings) and without `, ## '
+                  '__VA_ARGS__`, `__VA_OPT__(`, `## ##`, `## #`, and only in the direction "specification defines it => subst produces it"; '
+                  'C09_terminates only for tables without function-like macros (C09_terminates_Statement is open: hide-set intersection across '
+                  'expansion boundaries and recursive argument pre-expansion); C09_blue on text without directives.  Trusted: Lean kernel '
+                  '(axioms audited each run), the hand model (tied by differential testing; hide sets are observable only through their effect '
+                  'on the output), tools/extract/pp.py (pins the shape of subst/expand_macro/paste/... and regenerates punctuator and '
+                  'init_macros tables), the python tokenizer, Spec/PPSpec.lean (validated against gcc 12 on every input of every run). '
+                  '#include/#if are C10; where C11 6.10.3.4p4 leaves nesting unspecified and for GNU `, ##` chibicc and gcc are not compared.',
+    'technique': 'Lean 4: structural induction over replacement lists with a simulation invariant between the one-pass C algorithm and the '
+                 'phase-structured specification, invariant transfer through subst, a hide-set rank measure for termination; '
                  'translator-pinned source shapes; differential correspondence with chibicc -E; gcc -E -P and an executable C11 6.10.3 '
-                 'specification as independent oracles (2-of-3 rule)',
+                 'specification as two independent oracles (a mismatch is a violation only when both agree against chibicc)',
     'design_ref': 'DESIGN.md section 6, C09',
 }
